@@ -147,6 +147,61 @@ def run(chk):
         return "per key: own key, own samples, own index"
     chk.run("C09.R1", f"{MOD}:DataGeneratorParameter.param_batch", {}, go_param, construct="DataGeneratorParameter.param_batch step")
 
+    # ---------------- R3: get_batch composes the individual draws and carries every advanced state
+    chk.rule("C09.R3", "get_batch advances every store of the generator exactly once (each draw applied to the generator "
+                       "returned by the previous one) and returns the batches of those draws", floor=5)
+
+    def seq(gen, methods):
+        g, outs = freeze(gen), []
+        for m in methods:
+            g, b = getattr(g, m)()
+            outs.append(b)
+        return g, outs
+
+    def go_ode():
+        gen = G.ode()
+        new, batch = freeze(gen).get_batch()
+        e_new, (tb,) = seq(gen, ['temporal_batch'])
+        if not same(new, e_new):
+            raise Violation("generator after get_batch", str(first_diff(fz(new), fz(e_new)))[:300], "the generator returned by temporal_batch()")
+        expect_same(batch.fields['temporal_batch'], tb, "batch.temporal_batch")
+        return "generator and batch of temporal_batch()"
+    chk.run("C09.R3", f"{MOD}:DataGeneratorODE.get_batch", {}, go_ode, construct="DataGeneratorODE.get_batch")
+
+    for d, border in ((2, True), (1, True), (2, False)):
+        def go_st(d=d, border=border):
+            gen = G.statio(d, border=border)
+            new, batch = freeze(gen).get_batch()
+            e_new, (xb, bb) = seq(gen, ['inside_batch', 'border_batch'])
+            if not same(new, e_new):
+                raise Violation("generator after get_batch", str(first_diff(fz(new), fz(e_new)))[:300],
+                                "inside_batch() then border_batch() applied in sequence")
+            expect_same(batch.fields['inside_batch'], xb, "batch.inside_batch")
+            if bb is None:
+                if batch.fields['border_batch'] is not None:
+                    raise Violation("batch.border_batch", str(batch.fields['border_batch']), "None")
+            else:
+                expect_same(batch.fields['border_batch'], bb, "batch.border_batch")
+            return "both stores advanced once; batch fields are the two draws"
+        chk.run("C09.R3", f"{MOD}:CubicMeshPDEStatio.get_batch", {"dim": d, "border": border}, go_st, construct="CubicMeshPDEStatio.get_batch")
+
+    def go_ns():
+        from ..extern import make_world, term
+        w2 = make_world(chk.repo, overrides={(MOD, 'make_cartesian_product'): (lambda a, b: term('cartesian_product', a, b))})
+        G2 = GenEnv(chk.repo, w2)
+        gen = G2.nonstatio(2)
+        new, batch = freeze(gen).get_batch()
+        e_new, (xb, bb, tb) = seq(gen, ['inside_batch', 'border_batch', 'temporal_batch'])
+        if not same(new, e_new):
+            raise Violation("generator after get_batch", str(first_diff(fz(new), fz(e_new)))[:300],
+                            "inside_batch(), border_batch(), temporal_batch() applied in sequence")
+        txt = repr(fz(batch.fields['times_x_inside_batch'])) + repr(fz(batch.fields['times_x_border_batch']))
+        for nm, b in (("interior", xb), ("border", bb), ("temporal", tb)):
+            if repr(fz(b)) not in txt:
+                raise Violation(f"{nm} batch", f"the space-time batch is not built from the {nm} draw of this call", f"{str(b)[:120]}")
+        return "three stores advanced once; space-time batches built from the three draws"
+    chk.run("C09.R3", f"{MOD}:CubicMeshPDENonStatio.get_batch", {}, go_ns, construct="CubicMeshPDENonStatio.get_batch")
+
     chk.rule("C09.R2", "the initial index of every store forces a reshuffle at the first draw and index + batch size cannot "
                        "overflow int32 (generators built through the repository's constructors, three size assignments)", floor=20)
     run_initial_index(chk, G, "C09.R2")
